@@ -13,6 +13,7 @@ THEOREMS = ["Mesa.Signals." + t for t in (
     "C16_reentrant_untouched_called_once_per_subscription", "C16_reentrant_registry_is_call_history",
     "C16_slicex_set_rejected_iff", "C16_slicex_positions_exist", "C16_slicex_extended_set_frame",
     "C16_extend_signals", "C16_iadd_signals", "C16_clear_signals",
+    "C16_extend_failing_source", "C16_failing_source_is_extend_of_consumed",
     "C18_signals_reject_unchanged", "C18_signals_observe_reject_unchanged", "C18_signals_observe_rejects_exactly",
     "C18_signals_rejected_calls_can_be_deleted")]
 COUNTS = {"quick": 1500, "thorough": 150000}
@@ -30,7 +31,7 @@ ASSUMPTIONS = ["handlers do not assign and do not raise while being notified (re
 RULE = ("random classes with 2-4 Observables / ObservableLists split over 1-3 classes of an inheritance chain, in 3/10 of the chains a base class defines one of the names again (overridden: the most derived definition is in effect), random orders of "
         "the signal-type sets, 2-6 handlers (functions and bound methods, some dropped; in 1/4 of the scenarios 1-2 handlers make 1-2 registry calls - unobserve of themselves or of others, clear_all, observe of a passive handler - whenever they are called), 6-28 ops from observe/unobserve (name "
         "or All x type or All, incl. invalid ones), clear_all, drop, assignment and all list mutations with in-range, negative "
-        "and out-of-range indices, slices with open / negative / out-of-range bounds and steps -3..3 (0 and wrong item counts are rejected); non-trivial = at least 3 signals delivered and at least one All subscription")
+        "and out-of-range indices, extend / += from an iterable that raises after some items, slices with open / negative / out-of-range bounds and steps -3..3 (0 and wrong item counts are rejected); non-trivial = at least 3 signals delivered and at least one All subscription")
 
 
 def generate(rng, tier, count):
